@@ -26,6 +26,7 @@ type c20Case struct {
 	Ending string   // close | closenow | peer-close | violation | read-limit | ctx-expiry | transport-eof | transport-reset | transport-cut-midframe
 	Final  string   // Close | CloseNow
 	Repeat int
+	Echo   string // how the peer answers a Close frame: echo | none | invalid
 }
 
 var c20Ops = []string{"read", "write", "ping", "closeread", "netconn-rw", "netconn-deadline", "abandon-reader", "abandon-writer", "wsjson-write", "wsjson-read", "write-big"}
@@ -67,7 +68,13 @@ func runC20Once(t fataler, c c20Case, iter int) string {
 		case ref.OpPing:
 			p.send(ref.Frame{Fin: true, Opcode: ref.OpPong, Payload: f.Payload})
 		case ref.OpClose:
-			p.send(ref.Frame{Fin: true, Opcode: ref.OpClose, Payload: f.Payload})
+			switch c.Echo {
+			case "none":
+			case "invalid":
+				p.send(ref.Frame{Fin: true, Opcode: ref.OpClose, Payload: ref.ClosePayload(1005, "not allowed on the wire")})
+			default:
+				p.send(ref.Frame{Fin: true, Opcode: ref.OpClose, Payload: f.Payload})
+			}
 		}
 	}
 	p.start(e)
@@ -268,6 +275,7 @@ func TestC20(t *testing.T) {
 		c.Ending = rapid.SampledFrom(c20Endings).Draw(rt, "ending")
 		c.Final = rapid.SampledFrom([]string{"Close", "CloseNow"}).Draw(rt, "final")
 		c.Repeat = rapid.SampledFrom([]int{20, 50}).Draw(rt, "repeat")
+		c.Echo = rapid.SampledFrom([]string{"echo", "echo", "none", "invalid"}).Draw(rt, "peerEcho")
 		var msg string
 		rapid.SyncTest(rt, func(rt *rapid.T) {
 			before := len(libGoroutines())
@@ -281,7 +289,7 @@ func TestC20(t *testing.T) {
 			}
 		})
 		nt := hasCR || (c.Ending != "close" && c.Ending != "closenow")
-		rec.Case(nt, fmt.Sprintf("%s|%v|%s|%s", c.Mode.Name, c.Ops, c.Ending, c.Final), "ending:"+c.Ending, "final:"+c.Final, fmt.Sprintf("closeread:%v", hasCR))
+		rec.Case(nt, fmt.Sprintf("%s|%v|%s|%s|%s", c.Mode.Name, c.Ops, c.Ending, c.Final, c.Echo), "ending:"+c.Ending, "final:"+c.Final, fmt.Sprintf("closeread:%v", hasCR), "peer-echo:"+c.Echo)
 		rec.Evals(int64(c.Repeat - 1))
 		if rec.WantSample() {
 			rec.Sample(fmt.Sprintf("%+v", c))
